@@ -85,6 +85,11 @@ var checks = map[string]checkSpec{
 		Quick:     40 * time.Second, Thorough: 10 * time.Minute, Level: "exploration",
 		Rule: "Consume: partitions pre-loaded with generated physical layouts (uncompressed format 0, formats 1 and 2 with every codec, v1 wrappers with dense and gapped relative inner offsets, compaction holes, headers, control batches, fetch versions 2..11 with down-conversion) are fetched concurrently through Client.Fetch and Conn.ReadBatch; the oracle is the independent decoder run over the very bytes the broker model sent: same records, offsets, null-vs-empty keys/values, headers, millisecond timestamps; control batches hidden by Client.Fetch; key/value bytes of records held back while other responses are decoded must still be intact when finally read; a fault flips one byte inside the checksummed part of one batch and no record of that batch may surface. Produce: Conn.WriteMessages / WriteCompressedMessages, Client.Produce and (writer scenario) Writer with nil/empty keys and values, headers and sub-millisecond timestamps; every request is strictly decoded by the broker model (lengths, CRC, counts, offset deltas) and the decoded records are compared with what was submitted.",
 	},
+	"C04": {
+		Scenarios: []scnSpec{{Name: "fields", Share: 0.5}, {Name: "fields", Flavour: "unsafe", Share: 0.25}, {Name: "connerr", Share: 0.1}, {Name: "queries", Share: 0.15}},
+		Quick:     40 * time.Second, Thorough: 10 * time.Minute, Level: "exploration",
+		Rule: "fields: for every API that both kafka-go and the reference codec implement, a protocol.Conn over the simulated network negotiates versions against randomised broker ranges (ApiVersions + SelectVersion, as Transport does) and sends a request filled with generated values (boundary integers, empty/long/non-ASCII strings, nil/empty/non-empty blobs and arrays, nested arrays); the broker model strictly decodes it (size prefix, header, version within the advertised range, client id, canonical body) and the decoded values are compared by Kafka field *name* with the values the caller set; it answers with a generated response for that version plus unknown top-level tagged fields in flexible versions, which the library must decode to exactly those values and consume as exactly one frame (a further exchange on the connection must succeed); run against the default build of the protocol package and against its `unsafe` build (-tags unsafe). The same always-on monitor decodes every request of every other scenario (Conn's hand-written codec in connerr/queries, Transport in all others).",
+	},
 	"C07": {
 		Scenarios: []scnSpec{{Name: "writer", Params: "focus=order", Share: 1}},
 		Quick:     35 * time.Second, Thorough: 10 * time.Minute, Level: "exploration",
